@@ -1,6 +1,6 @@
 (** statements of PropertiesSem.v re-stated, and the definitions they speak about pinned *)
 From Coq Require Import List ZArith NArith Bool.
-From JrV Require Import Sem.Syntax Sem.Interp Sem.Store Sem.Needed C03.PropertiesSem.
+From JrV Require Import Sem.Syntax Sem.Interp Sem.Store Sem.Needed Sem.NeededLocals C03.PropertiesSem.
 Import ListNotations.
 
 Check C03_sem_every_function_extends_store :
@@ -58,6 +58,23 @@ Check C03_sem_unused_local_never_runs_program :
   forall fuel x e e' body,
     (exists c, nth_error (cells (snd (run_state fuel (ELocal [(x, e)] body)))) 0 = Some c /\ is_wait c = true) ->
     run fuel (ELocal [(x, e')] body) = run fuel (ELocal [(x, e)] body).
+Check C03_sem_unused_locals_never_run :
+  forall (keep : nat -> bool) n ev oc bs bs' body s r s',
+    map fst bs' = map fst bs ->
+    (forall i, keep i = true -> nth_error bs' i = nth_error bs i) ->
+    eval (S n) ev oc (ELocal bs body) s = (r, s') ->
+    (forall i, i < length bs -> keep i = false ->
+               exists c, nth_error (cells s') (length (cells s) + i) = Some c /\ is_wait c = true) ->
+    exists s2', eval (S n) ev oc (ELocal bs' body) s = (r, s2') /\ log s2' = log s'.
+Check C03_sem_unread_elements_never_run :
+  forall (keep : nat -> bool) n ev oc es es' A (k : value -> M A) s r s',
+    (forall v, sem_fn A (k v)) ->
+    length es' = length es ->
+    (forall i, keep i = true -> nth_error es' i = nth_error es i) ->
+    (v <- eval (S n) ev oc (EArr es) ;; k v) s = (r, s') ->
+    (forall i, i < length es -> keep i = false ->
+               exists c, nth_error (cells s') (length (cells s) + i) = Some c /\ is_wait c = true) ->
+    exists s2', (v <- eval (S n) ev oc (EArr es') ;; k v) s = (r, s2') /\ log s2' = log s'.
 
 (** the vocabulary *)
 Check eq_refl : cell_le = fun c c' => c' = c \/ (is_wait c = true /\ is_wait c' = false).
@@ -83,6 +100,8 @@ Check sf_binop_val : forall n o a b, sem_fn _ (binop_val n o a b).
 Check sf_equals : forall n a b, sem_fn _ (equals n a b).
 Check sf_compare_val : forall n a b, sem_fn _ (compare_val n a b).
 Check sf_manifest : forall n v, sem_fn _ (manifest n v).
+Check sf_ret : forall A (a : A), sem_fn _ (ret a).
+Check sf_fail : forall A k, sem_fn A (fail k).
 Check sf_bind : forall A B (m : M A) (f : A -> M B), sem_fn A m -> (forall a, sem_fn B (f a)) -> sem_fn B (bind m f).
 Check sr_refl : forall s, sem_reach s s.
 Check sr_step : forall s s' s'', (exists (A : Type) (m : M A), sem_fn A m /\ s' = snd (m s)) ->
